@@ -1,11 +1,11 @@
 (* C05 -- Child listings and ls-subscriptions show exactly the keys that exist.
    Statements only.  Proved: ls is exact, pls is the union over the matching parents, an ls
-   notification reaches exactly the subscribers of its parent.  Not yet proved in Coq (covered by
-   the correspondence and the ls oracle): that after every request the last list an ls-subscriber
-   received equals ls -- this is the partial part of the claim.  Known finding F18b: import sends
-   no ls notification. *)
-From WB Require Import Base.Str Base.Json Model.Key Model.Store Model.Entry Model.Core
-  Spec.MapSpec Proofs.StoreFacts Proofs.TreeInv Proofs.C05Proof.
+   notification reaches exactly the subscribers of its parent, and -- over every history of requests
+   of any kind except import -- the last list every live ls-subscription received is the list ls
+   returns for its parent (Proofs/LsHistory.v).  Known finding F18b: import sends no ls
+   notification, which is why import is excluded (C05_import_refuted). *)
+From WB Require Import Base.Str Base.Json Model.Key Model.Consts Model.Store Model.Entry Model.Core
+  Spec.MapSpec Proofs.StoreFacts Proofs.TreeInv Proofs.C05Proof Proofs.LsHistory.
 
 Theorem C05_ls_exact :
   forall (V : Type) (n : node V) P, wfn n -> cleann n ->
@@ -35,6 +35,56 @@ Theorem C05_notification_routing :
     exists note sub, In note notes /\ In sub (lssubs s) /\ l_parent sub = fst note /\ i = l_inst sub /\ l = snd note.
 Proof. exact notify_ls_spec. Qed.
 Print Assumptions C05_notification_routing.
+
+(* ---- whole histories ----
+   [ls_trace init ops] is everything the server sent to ls-subscribers during the history, in order, as
+   (subscription instance, list); [apply_ls] keeps the last list per instance; [LS d P] is what ls answers
+   for parent P on data d, [] standing for NoSuchValue. *)
+Theorem C05_last_list_is_ls :
+  forall ops, Forall not_import ops ->
+    let s := final init ops in
+    forall sub, In sub (lssubs s) ->
+      apply_ls (fun _ => None) (ls_trace init ops) (l_inst sub) = Some (LS (data s) (l_parent sub)).
+Proof. exact last_list_is_ls. Qed.
+Print Assumptions C05_last_list_is_ls.
+
+Theorem C05_LS_is_what_ls_answers :
+  forall s parent,
+    LS (data s) (match parent with Some p => split slash p | None => [] end) =
+    match do_ls s parent with RNames l => l | _ => [] end.
+Proof. exact LS_is_do_ls. Qed.
+Print Assumptions C05_LS_is_what_ls_answers.
+
+(* the notes of the three tree operations: the last note recorded for a parent is its list afterwards, a
+   parent without a note keeps its list (for a pattern delete the intermediate lists, one per removed
+   child in the order of the loop, are overwritten by the last) *)
+Theorem C05_insert_notes :
+  forall (V : Type) p (e : V) (d : node V), notes_ok d (set_at p e d) [] (insert_notes p d (set_at p e d)).
+Proof. exact @insert_notes_ok. Qed.
+Print Assumptions C05_insert_notes.
+
+Theorem C05_delete_notes :
+  forall (V : Type) p (n : node V) pre, wfn n -> cleann n -> notes_ok n (del_at p n) pre (del_notes pre p n).
+Proof. exact @del_notes_ok. Qed.
+Print Assumptions C05_delete_notes.
+
+Theorem C05_pdelete_notes :
+  forall (V : Type) (n : node V) trav pat, wfn n -> cleann n ->
+    notes_ok n (dr_node (delm n trav pat)) trav (dr_notes (delm n trav pat)).
+Proof. exact @delm_notes_ok. Qed.
+Print Assumptions C05_pdelete_notes.
+
+(* non-vacuity: two subscriptions (one on a parent that does not exist yet), sets, a wildcard delete that
+   removes two children one after the other, a session end with grave goods *)
+Example C05_history_nonvacuous :
+  let ops := [OConnected 7; OSubscribeLs 9 1 (Some [97]); OSubscribeLs 9 2 None;
+              OSet 1 [97;47;98] JNull false; OSet 1 [97;47;99] JNull false; OSet 1 [100] JNull false;
+              OSet 7 (topic [s_SYS; s_clients; client_str 7; s_graveGoods]) (JArr [JStr [100]]) false;
+              OPDelete 1 [97;47;63]; OSubscribeLs 9 3 (Some [97]); OSet 1 [97;47;101] JNull false; ODisconnected 7] in
+  Forall not_import ops /\
+  map (fun sub => (l_inst sub, apply_ls (fun _ => None) (ls_trace init ops) (l_inst sub))) (lssubs (final init ops)) =
+    [(0, Some [[101]]); (1, Some [[36;83;89;83]; [97]]); (2, Some [[101]])].
+Proof. cbv zeta. split; [repeat (apply Forall_cons; [exact I|]); apply Forall_nil|vm_compute; reflexivity]. Qed.
 
 (* known finding F18b: an import that adds a child sends nothing to the parent's ls-subscriber *)
 Theorem C05_import_refuted :
